@@ -71,13 +71,36 @@ def strip_guard(extra=None):
             # eff_true = truth value of the call when the atom is true
             return (not eff_true)   # branch of the atom on which the call is false
         if extra:
-            t = pp(core)
-            for text, br in extra.items():
-                if text in t:
-                    # atom true means `text` true (modulo eff)
+            for pred, br in extra:
+                if pred(core):
+                    # atom true means the described condition true (modulo eff)
                     return br if eff_true else (not br)
         return None
     return d
+
+
+def _not_text_node(a):
+    """<the node-type parameter> != TEXT_NODE, whatever the parameter is called"""
+    pids = {p['id'] for p in a['params'] if 'NodeType' in (p.get('ty') or '')}
+
+    def pred(core):
+        if core.get('k') != 'Bin' or core.get('op') != '!=':
+            return False
+        l, r2 = strip_casts(core['lhs']), strip_casts(core['rhs'])
+        for v, c in ((l, r2), (r2, l)):
+            if v is not None and v.get('k') == 'Ref' and v.get('id') in pids and c is not None and pp(c).endswith('TEXT_NODE'):
+                return True
+        return False
+    return pred
+
+
+def _bool_param(a):
+    """a bool parameter of the function tested on its own (cloneToResultTree's override flag)"""
+    pids = {p['id'] for p in a['params'] if (p.get('ty') or '').replace('const', '').strip() == 'bool'}
+
+    def pred(core):
+        return core.get('k') == 'Ref' and core.get('id') in pids
+    return pred
 
 
 def r1_unaware(res, facts):
@@ -137,13 +160,13 @@ def r2_sinks(res, facts):
     for a in facts.asts('XPath::NodeTester::testText'):
         specs.append((a, 'return-match', None))
     for a in facts.asts('XPath::NodeTester::testNode'):
-        specs.append((a, 'return-match', {'(nodeType != ': True}))
+        specs.append((a, 'return-match', [(_not_text_node(a), True)]))
     for a in facts.asts('DOMServices::doGetNodeData'):
         if a['params'] and short(a['params'][0]['ty']).startswith('const XalanText'):
             specs.append((a, 'deliver', None))
     for a in facts.asts('XSLTEngineImpl::cloneToResultTree'):
         if a['params'] and short(a['params'][0]['ty']).startswith('const XalanText'):
-            specs.append((a, 'deliver', {'overrideStrip': True}))
+            specs.append((a, 'deliver', [(_bool_param(a), True)]))
     if len(specs) < 5:
         raise AnalysisBroken('only %d text sinks found (floor 5)' % len(specs))
     for a, kind, extra in specs:
@@ -327,7 +350,7 @@ CHAIN = ('StylesheetExecutionContextDefault::shouldStripSourceNode', 'Stylesheet
 NO_STRIP_GUARDS = (
     ('hasPreserveOrStripSpaceElements()', False), ('m_hasPreserveOrStripConditions', False), ('.isWhitespace()', False),
     ('ELEMENT_NODE', None),   # parent is not an element (either spelling of the comparison)
-    ('parent == 0', True), ('theParent == 0', True), ('parent != 0', False),
+    # "the node has no parent" is recognised structurally (a local initialised from getParentNode() compared with null), whatever the local is called
     ('.end()', None),         # the list of declarations is exhausted
 )
 
@@ -406,6 +429,12 @@ def r5_decision(res, facts):
             return pp(e)[:90]
 
         site = short(a.get('q') or qn)
+        parent_ids = set()
+        for x in walk(a['body']):
+            if x.get('k') == 'Decl':
+                for v in x.get('vars', []):
+                    if v.get('init') is not None and any((c.get('n') or '') in ('getParentNode', 'getParentOfNode') for c in calls(v['init'])):
+                        parent_ids.add(v['id'])
         n_ret = 0
         for n in cfg.nodes:
             if n.kind != 'stmt' or n.ast is None or n.ast.get('k') != 'Return':
@@ -420,6 +449,11 @@ def r5_decision(res, facts):
                     core, eff = common.norm_atom(c.ast, True)
                     if core is None:
                         return None
+                    if core.get('k') == 'Bin' and core['op'] in ('==', '!='):
+                        l, r2 = strip_casts(core['lhs']), strip_casts(core['rhs'])
+                        for v, z in ((l, r2), (r2, l)):
+                            if v is not None and v.get('k') == 'Ref' and v.get('id') in parent_ids and z is not None and (z.get('cv') == 0 or z.get('k') == 'Nullptr'):
+                                return eff if core['op'] == '==' else (not eff)
                     t = pp(core)
                     for text, val in NO_STRIP_GUARDS:
                         if text in t:
